@@ -84,7 +84,7 @@ class Gen:
         cls = rng.choice(CLASSES)
         return ir.StaticExpression(cls, "I", rng.choice(("f", "count", "MAX_VALUE"))), ["gets", dotted(cls), None]
 
-    def tree(self, depth, want="num", wild=False):
+    def tree(self, depth, want="num", wild=False, root=True):
         """want: num | ref | bool | any; wild: also produce shapes DAD itself never nests (bare comparisons as operands)"""
         ir, rng = self.ir, self.rng
         if depth <= 0 or rng.random() < 0.15:
@@ -92,12 +92,14 @@ class Gen:
             if w[0] == "gets":
                 w = ["gets", w[1], o.name]
             return o, w
-        sub = lambda want2="num": self.tree(depth - 1, want2, wild)  # noqa: E731
+        sub = lambda want2="num": self.tree(depth - 1, want2, wild, False)  # noqa: E731
         kinds = ["bin", "bin", "bin", "un", "cast", "aload", "alen", "getf", "invoke", "invoke_static", "cmp"]
         if want == "ref":
-            kinds = ["ccast", "getf", "invoke", "new", "newarr", "aload"]
+            # NewArrayExpression.is_propagable() is False: DAD never nests an array creation inside another expression
+            kinds = ["ccast", "getf", "invoke", "new", "aload"] + (["newarr"] if root or wild else [])
         if want == "bool":
-            kinds = ["getf", "invoke", "cond", "condz"]
+            # a comparison is never an operand in DAD's trees (it is built for the test of an if only)
+            kinds = ["getf", "invoke"] + (["cond", "condz"] if root or wild else [])
         if want == "top":
             kinds = ["cond", "cond", "condz", "condz", "condz_cmp"]
         if wild and rng.random() < 0.2:
@@ -151,7 +153,7 @@ class Gen:
         if k in ("condz", "condz_cmp"):
             op = rng.choice(REL if k == "condz_cmp" or rng.random() < 0.5 else ["==", "!="])
             if k == "condz_cmp":
-                a, wa = self.tree(1, "num", wild)
+                a, wa = self.tree(1, "num", wild, False)
                 while wa[0] != "cmp":
                     x, wx = sub(); y, wy = sub()  # noqa: E702
                     p1, p2 = self.ph(), self.ph()
@@ -232,57 +234,289 @@ def real_text(wr, e):
     return str(w)
 
 
+# ---------------------------------------------------------------------------------------------------------------
+# oracle: what javac's parser makes of the real text, against the tree the IR expression is (independent of the model)
+
+_DUMP_JAVA = r"""
+import com.sun.source.tree.*; import com.sun.source.util.*; import javax.tools.*; import java.util.*; import java.io.*; import java.net.URI;
+import java.math.BigInteger;
+public class ExprDump {
+  static String lit(String k, Object v) {
+    BigInteger b = new BigInteger(v.toString());
+    return b.signum() < 0 ? "(un - (" + k + " " + b.negate() + "))" : "(" + k + " " + b + ")";
+  }
+  static String ty(Tree t) {
+    switch (t.getKind()) {
+      case PRIMITIVE_TYPE: return ((PrimitiveTypeTree) t).getPrimitiveTypeKind().toString().toLowerCase();
+      case IDENTIFIER: return ((IdentifierTree) t).getName().toString();
+      case MEMBER_SELECT: return ty(((MemberSelectTree) t).getExpression()) + "." + ((MemberSelectTree) t).getIdentifier();
+      case ARRAY_TYPE: return ty(((ArrayTypeTree) t).getType()) + "[]";
+      default: return "?" + t.getKind();
+    }
+  }
+  static String args(List<? extends Tree> l) { StringBuilder b = new StringBuilder(); for (Tree x : l) b.append(" ").append(d(x)); return b.toString(); }
+  static final Map<Tree.Kind, String> BIN = new EnumMap<>(Tree.Kind.class), UN = new EnumMap<>(Tree.Kind.class);
+  static {
+    BIN.put(Tree.Kind.MULTIPLY, "*"); BIN.put(Tree.Kind.DIVIDE, "/"); BIN.put(Tree.Kind.REMAINDER, "%"); BIN.put(Tree.Kind.PLUS, "+");
+    BIN.put(Tree.Kind.MINUS, "-"); BIN.put(Tree.Kind.LEFT_SHIFT, "<<"); BIN.put(Tree.Kind.RIGHT_SHIFT, ">>");
+    BIN.put(Tree.Kind.UNSIGNED_RIGHT_SHIFT, ">>>"); BIN.put(Tree.Kind.LESS_THAN, "<"); BIN.put(Tree.Kind.GREATER_THAN, ">");
+    BIN.put(Tree.Kind.LESS_THAN_EQUAL, "<="); BIN.put(Tree.Kind.GREATER_THAN_EQUAL, ">="); BIN.put(Tree.Kind.EQUAL_TO, "==");
+    BIN.put(Tree.Kind.NOT_EQUAL_TO, "!="); BIN.put(Tree.Kind.AND, "&"); BIN.put(Tree.Kind.XOR, "^"); BIN.put(Tree.Kind.OR, "|");
+    BIN.put(Tree.Kind.CONDITIONAL_AND, "&&"); BIN.put(Tree.Kind.CONDITIONAL_OR, "||");
+    UN.put(Tree.Kind.UNARY_MINUS, "-"); UN.put(Tree.Kind.UNARY_PLUS, "+"); UN.put(Tree.Kind.BITWISE_COMPLEMENT, "~");
+    UN.put(Tree.Kind.LOGICAL_COMPLEMENT, "!");
+  }
+  static String d(Tree t) {
+    Tree.Kind k = t.getKind();
+    if (BIN.containsKey(k)) { BinaryTree b = (BinaryTree) t; return "(bin " + BIN.get(k) + " " + d(b.getLeftOperand()) + " " + d(b.getRightOperand()) + ")"; }
+    if (UN.containsKey(k)) return "(un " + UN.get(k) + " " + d(((UnaryTree) t).getExpression()) + ")";
+    switch (k) {
+      case PARENTHESIZED: return "(paren " + d(((ParenthesizedTree) t).getExpression()) + ")";
+      case INT_LITERAL: return lit("int", ((LiteralTree) t).getValue());
+      case LONG_LITERAL: return lit("long", ((LiteralTree) t).getValue());
+      case NULL_LITERAL: return "null";
+      case IDENTIFIER: { String n = ((IdentifierTree) t).getName().toString(); return n.equals("this") ? "this" : "(id " + n + ")"; }
+      case MEMBER_SELECT: return "(sel " + d(((MemberSelectTree) t).getExpression()) + " " + ((MemberSelectTree) t).getIdentifier() + ")";
+      case ARRAY_ACCESS: return "(idx " + d(((ArrayAccessTree) t).getExpression()) + " " + d(((ArrayAccessTree) t).getIndex()) + ")";
+      case METHOD_INVOCATION: return "(call " + d(((MethodInvocationTree) t).getMethodSelect()) + args(((MethodInvocationTree) t).getArguments()) + ")";
+      case NEW_CLASS: return "(new " + ty(((NewClassTree) t).getIdentifier()) + args(((NewClassTree) t).getArguments()) + ")";
+      case NEW_ARRAY: return "(newarr " + ty(((NewArrayTree) t).getType()) + args(((NewArrayTree) t).getDimensions()) + ")";
+      case TYPE_CAST: return "(cast " + ty(((TypeCastTree) t).getType()) + " " + d(((TypeCastTree) t).getExpression()) + ")";
+      default: return "?" + k;
+    }
+  }
+  public static void main(String[] a) throws Exception {
+    BufferedReader in = new BufferedReader(new InputStreamReader(System.in, "UTF-8"));
+    List<String> lines = new ArrayList<>(); for (String s; (s = in.readLine()) != null; ) lines.add(s);
+    JavaCompiler c = ToolProvider.getSystemJavaCompiler();
+    PrintStream out = new PrintStream(System.out, false, "UTF-8");
+    for (int i = 0; i < lines.size(); i++) {
+      final String src = "class T { Object f() { return\n" + lines.get(i) + "\n; } }";
+      JavaFileObject fo = new SimpleJavaFileObject(URI.create("string:///T.java"), JavaFileObject.Kind.SOURCE) {
+        public CharSequence getCharContent(boolean b) { return src; } };
+      DiagnosticCollector<JavaFileObject> dc = new DiagnosticCollector<>();
+      String r;
+      try {
+        JavacTask task = (JavacTask) c.getTask(null, null, dc, null, null, Collections.singletonList(fo));
+        CompilationUnitTree u = task.parse().iterator().next();
+        boolean err = false; for (Diagnostic<?> x : dc.getDiagnostics()) if (x.getKind() == Diagnostic.Kind.ERROR) err = true;
+        if (err) r = "syntax-error";
+        else {
+          MethodTree m = (MethodTree) ((ClassTree) u.getTypeDecls().get(0)).getMembers().get(0);
+          List<? extends StatementTree> st = m.getBody().getStatements();
+          r = st.size() == 1 && st.get(0) instanceof ReturnTree ? d(((ReturnTree) st.get(0)).getExpression()) : "not-one-expression";
+        }
+      } catch (Exception e) { r = "exception:" + e.getClass().getSimpleName(); }
+      out.println(r);
+    }
+    out.flush();
+  }
+}
+"""
+
+
+def javac_trees(workdir, texts):
+    """the javac parser's tree of each expression text, as an S-expression ('syntax-error' when it is not an expression)"""
+    import os
+    import subprocess
+    from harness.fw import ToolFailure
+    src = os.path.join(workdir, "ExprDump.java")
+    if not os.path.exists(os.path.join(workdir, "ExprDump.class")):
+        open(src, "w").write(_DUMP_JAVA)
+        p = subprocess.run(["javac", "-nowarn", "-d", workdir, src], capture_output=True, text=True, timeout=600)
+        if p.returncode != 0:
+            raise ToolFailure("javac ExprDump: " + p.stderr[-400:])
+    p = subprocess.run(["java", "-cp", workdir, "ExprDump"], input="\n".join(t.replace("\n", " ") for t in texts) + "\n",
+                       capture_output=True, text=True, timeout=1800)
+    out = p.stdout.splitlines()
+    if p.returncode != 0 or len(out) != len(texts):
+        raise ToolFailure("ExprDump: rc=%s lines=%d/%d %s" % (p.returncode, len(out), len(texts), p.stderr[-300:]))
+    return out
+
+
+def _qn_tree(name):
+    parts = name.split(".")
+    t = "(id %s)" % parts[0]
+    for x in parts[1:]:
+        t = "(sel %s %s)" % (t, x)
+    return t
+
+
+class NoTree(Exception):
+    pass
+
+
+def expected(ir, e):
+    """expected_tree, or None where the property defines no Java expression (float compare as a value, `<init>` on a variable)"""
+    try:
+        return expected_tree(ir, e)
+    except NoTree:
+        return None
+
+
+def expected_tree(ir, e, zop=None):
+    """the Java expression an IR expression is, read off the IR objects (property side: no model, no Writer).
+    Parentheses the decompiler adds are part of the tree; what matters is that every operator keeps its operands."""
+    vm = getattr(e, "var_map", {})
+    sub = lambda key: expected_tree(ir, vm[key])  # noqa: E731
+    if isinstance(e, ir.Constant):
+        v = e.get_int_value()
+        k = "long" if e.type == "J" else "int"
+        return "(un - (%s %d))" % (k, -v) if v < 0 else "(%s %d)" % (k, v)
+    if isinstance(e, ir.ThisParam):
+        return "this"
+    if isinstance(e, ir.Param):
+        return "(id p%s)" % e.v
+    if isinstance(e, ir.Variable):
+        return "(id v%s)" % e.name
+    if isinstance(e, ir.BaseClass):
+        return _qn_tree(e.cls)
+    if isinstance(e, ir.BinaryCompExpression):
+        if zop is not None:                       # folded into an if-<test>z: the comparison itself
+            return "(bin %s %s %s)" % (zop, sub(e.arg1), sub(e.arg2))
+        if e.type == "J":
+            return "(call (sel (id Long) compare) %s %s)" % (sub(e.arg1), sub(e.arg2))
+        raise NoTree()                            # float/double compare as a value: no Java expression is defined here
+    if isinstance(e, ir.BinaryExpression):
+        return "(paren (bin %s %s %s))" % (e.op, sub(e.arg1), sub(e.arg2))
+    if isinstance(e, ir.CastExpression):
+        return "(paren (cast %s %s))" % (e.op.strip("()"), sub(e.arg))
+    if isinstance(e, ir.UnaryExpression):
+        return "(paren (un %s %s))" % (e.op, sub(e.arg))
+    if isinstance(e, ir.CheckCastExpression):
+        return "(paren (cast %s %s))" % (dotted(e.type), sub(e.arg))
+    if isinstance(e, ir.ConditionalExpression):
+        return "(bin %s %s %s)" % (e.op, sub(e.arg1), sub(e.arg2))
+    if isinstance(e, ir.ConditionalZExpression):
+        a = vm[e.arg]
+        if isinstance(a, ir.BinaryCompExpression):
+            return expected_tree(ir, a, zop=e.op)
+        t = str(a.get_type())
+        if t == "Z":
+            return "(un ! %s)" % sub(e.arg) if e.op == "==" else sub(e.arg)
+        return "(bin %s %s %s)" % (e.op, sub(e.arg), "(int 0)" if t in PRIMS else "null")
+    if isinstance(e, ir.InstanceExpression):
+        return "(sel %s %s)" % (sub(e.arg), e.name)
+    if isinstance(e, ir.StaticExpression):
+        return "(sel %s %s)" % (_qn_tree(dotted(e.clsdesc)), e.name)
+    if isinstance(e, ir.ArrayLoadExpression):
+        return "(idx %s %s)" % (sub(e.array), sub(e.idx))
+    if isinstance(e, ir.ArrayLengthExpression):
+        return "(sel %s length)" % sub(e.array)
+    if isinstance(e, ir.NewArrayExpression):
+        et = e.type[1:]
+        return "(newarr %s %s)" % (PRIMS.get(et) or dotted(et), sub(e.size))
+    if isinstance(e, ir.InvokeInstruction):
+        args = "".join(" " + sub(a) for a in e.args)
+        base = vm[e.base]
+        if e.name == "<init>":
+            if isinstance(base, ir.NewInstance):
+                return "(new %s%s)" % (dotted(base.type), args)
+            raise NoTree()
+        return "(call (sel %s %s)%s)" % (expected_tree(ir, base), e.name, args)
+    raise NoTree()
+
+
 def parse_reply(line):
-    """'wf=1 level=15 parse=ok toks=…' -> dict"""
+    """'wf=1 level=15 parse=ok ;; tree=… ;; toks=…' -> dict"""
     d = {}
-    head, _, toks = line.partition(" toks=")
-    for part in head.split():
+    parts = line.split(" ;; ")
+    for part in parts[0].split():
         k, _, v = part.partition("=")
         d[k] = v
-    d["toks"] = toks.strip()
+    for part in parts[1:]:
+        k, _, v = part.partition("=")
+        d[k] = v.strip()
     return d
 
 
-def leg(ck, drv, n):
+def stream(ck_seed, n, start=0):
+    """the deterministic sequence of (index, real IR object, prefix words, wild) of one run"""
+    import importlib
+    import random
     from gen import translate as gt
     from harness.fw import REPO
-    import importlib
     _dex, _oi, ir, wr = gt._load(REPO)
     util = importlib.import_module("androguard.decompiler.util")
-    g = Gen(ir, util, ck.rng)
-    reqs, real, shapes = [], [], []
+    rng = random.Random("c21-jexpr-%d" % ck_seed)
+    g = Gen(ir, util, rng)
     for i in range(n):
         wild = i % 5 == 4
-        want = ck.rng.choice(("num", "num", "ref", "top", "top", "bool"))
-        depth = ck.rng.choice((1, 2, 2, 3, 3, 4))
+        want = rng.choice(("num", "num", "ref", "top", "top", "bool"))
+        depth = rng.choice((1, 2, 2, 3, 3, 4))
         e, words = g.tree(depth, want, wild)
-        try:
-            text = real_text(wr, e)
-            toks = lex(text)
-            r = " ".join(toks) if toks is not None else "not-java:" + text
-        except Exception as ex:  # noqa
-            text, r = None, "other:" + type(ex).__name__
+        if i >= start:
+            yield i, ir, wr, e, words, wild
+
+
+def observe(ir, wr, e):
+    """(expected tree computed BEFORE printing (the Writer mutates a folded compare), real text, lexemes)"""
+    exp = expected(ir, e)
+    try:
+        text = real_text(wr, e)
+    except Exception as ex:  # noqa
+        return exp, None, "other:" + type(ex).__name__
+    toks = lex(text)
+    return exp, text, (" ".join(toks) if toks is not None else "not-java:" + text)
+
+
+def leg(ck, drv, n, workdir):
+    reqs, real, texts, exps, wilds = [], [], [], [], []
+    for i, ir, wr, e, words, wild in stream(ck.seed, n):
+        exp, text, r = observe(ir, wr, e)
         reqs.append("jexpr " + " ".join(words))
-        real.append(r)
-        shapes.append((words[0], depth, wild))
+        real.append(r); texts.append(text); exps.append(exp); wilds.append(wild)  # noqa: E702
     replies = drv.ask(reqs)
     parsed = [parse_reply(x) for x in replies]
-    model = []
-    for p, x, r in zip(parsed, replies, real):
-        if p.get("wf") not in ("0", "1"):
-            model.append(x)
-        elif r.startswith("not-java:") and p["wf"] == "0":
-            model.append(r)       # e.g. `0.length`: not lexically Java, and the model says the tree is not well-formed
-        else:
-            model.append(p["toks"])
-    ck.compare("writer expression lexemes (print_parse)", reqs, real, model)
+    jtrees = javac_trees(workdir, [t if t is not None else "?" for t in texts])
+    real2, model = [], []
     nwf = 0
-    for rq, p in zip(reqs, parsed):
-        if p.get("wf") == "1":
+    for i, (p, x, r) in enumerate(zip(parsed, replies, real)):
+        if p.get("wf") not in ("0", "1") or "toks" not in p:
+            real2.append(r); model.append(x)  # noqa: E702
+            continue
+        if r.startswith("not-java:") and p["wf"] == "0":
+            real2.append(r); model.append(r)       # e.g. `0.length`: not lexically Java, and the model says: not well-formed  # noqa: E702
+            continue
+        if p["wf"] == "1":
             nwf += 1
+            # three-way: the real text lexes to the model's lexemes, and javac's parser reads the real text as the model's tree
+            real2.append(r + " || " + jtrees[i])
+            model.append(p["toks"] + " || " + p.get("tree", "?"))
             if p.get("parse") != "ok":
-                ck.fail({"kind": "jexpr", "request": rq}, "the model's parser does not return the tree of a well-formed expression "
-                        "(instance of theorem print_parse)", None, expected="parse=ok", observed=p.get("parse"))
-    ck.cover(evaluations=len(reqs), distinct=set(reqs), samples=[{"request": reqs[i], "real": real[i], "model": replies[i]} for i in (0, len(reqs) // 2)],
-             dist={"well-formed": nwf, "not well-formed (bare comparison as operand, a cmp b …)": len(reqs) - nwf})
-    return reqs, real, parsed
+                ck.fail({"kind": "jexpr-model", "request": reqs[i]}, "the model's parser does not return the tree of a well-formed "
+                        "expression (instance of theorem print_parse)", None, expected="parse=ok", observed=p.get("parse"))
+        else:
+            real2.append(r); model.append(p["toks"])  # noqa: E702
+    ck.compare("writer expression lexemes and javac tree (print_parse)", reqs, real2, model)
+    # oracle (leg S): independent of the model
+    nor = 0
+    for i in range(len(reqs)):
+        if wilds[i] or exps[i] is None:
+            continue
+        nor += 1
+        if jtrees[i] != exps[i]:
+            ck.fail({"kind": "jexpr", "seed": ck.seed, "index": i, "tree": reqs[i][6:]},
+                    "the Java expression text printed for an IR expression does not parse (javac) to that expression", None,
+                    expected=exps[i], observed={"text": texts[i], "javac": jtrees[i]})
+    ck.cover(evaluations=len(reqs) + nor, distinct=set(reqs),
+             samples=[{"request": reqs[i], "text": texts[i], "javac": jtrees[i], "model": replies[i]} for i in (0, len(reqs) // 2)],
+             dist={"well-formed": nwf, "not well-formed (bare comparison as operand, a cmp b ...)": len(reqs) - nwf, "judged by the javac oracle": nor})
+
+
+def replay(ck, c):
+    import tempfile
+    import shutil
+    for i, ir, wr, e, words, wild in stream(c["seed"], c["index"] + 1, start=c["index"]):
+        exp, text, r = observe(ir, wr, e)
+        d = tempfile.mkdtemp(prefix="c21-jx-")
+        try:
+            jt = javac_trees(d, [text if text is not None else "?"])[0]
+        finally:
+            shutil.rmtree(d, ignore_errors=True)
+        print("IR tree :", " ".join(words))
+        print("text    :", text)
+        print("expected:", exp)
+        print("javac   :", jt)
+        return 0 if jt == exp else 1
+    return 0
